@@ -141,8 +141,22 @@ WellFormed(x, d) ==
 (* PatchSeq is shared by lists, lines and characters.                      *)
 (*   PI(item, subdiff)  patched item;  VL(e)  the inserted items.          *)
 (***************************************************************************)
-PatchSeq(xs, d, PI(_, _), VL(_)) ==
-  LET RECURSIVE Go(_, _, _)
+\* "addrange: insert new items BEFORE A[key]" (docs): insertions at a key take effect before a removal / patch of
+\* the item at that key, whatever the order of the entries with that key; otherwise entries keep their order.
+InsertionsFirst(d) ==
+  LET Rank(e) == IF e.op = "addrange" THEN 0 ELSE 1
+      Before(e, f) == e.key < f.key \/ (e.key = f.key /\ Rank(e) < Rank(f))
+      RECURSIVE Ins(_, _)
+      Ins(s, e) == IF Len(s) = 0 THEN <<e>>
+                   ELSE IF Before(e, s[Len(s)]) THEN Append(Ins(SubSeq(s, 1, Len(s) - 1), e), s[Len(s)])
+                   ELSE Append(s, e)
+      RECURSIVE From(_, _)
+      From(j, acc) == IF j > Len(d) THEN acc ELSE From(j + 1, Ins(acc, d[j]))
+  IN IF \A j \in 1..(Len(d) - 1) : ~Before(d[j + 1], d[j]) THEN d ELSE From(1, <<>>)
+
+PatchSeq(xs, d0, PI(_, _), VL(_)) ==
+  LET d == InsertionsFirst(d0)
+      RECURSIVE Go(_, _, _)
       Go(j, take, acc) ==
         IF j > Len(d) THEN acc \o SubSeqFrom(xs, take + 1)
         ELSE LET e   == d[j]
